@@ -1,11 +1,22 @@
-(* C18: The command-line tool mirrors the library (argument parsing part).
+(* C18: The command-line tool mirrors the library.
 
    Model/Cli.v is the transcription of cmd/bcl/args.go.  Flags may come in any order, before or after
    the file argument, repeated, long or short, or clustered as single letters; usage errors are exactly
    the documented ones; --bdump derives its file name from FILE.  That stdout/stderr/exit status equal the
-   library's is checked against the real binary (the OS is outside the model: partial). *)
+   library's is checked against the real binary (the OS is outside the model: partial).
+   Model/CliRun.v is the transcription of cmd/bcl/main.go (run and main): which library calls are made for the
+   parsed flags and in which order, what reaches stdout, which file is written, the exit status; the outside world
+   (standard input, readable files, whether the dump target can be created and written) is a parameter.  The real
+   binary is compared with this model on every case (exit status, stdout, file written, error or not).  Theorems:
+   the tool IS the library call sequence (C18_run_is_interpret: without --bdump/--bload, stdout, result and status
+   are exactly those of Interpret with the same options); exit status 0 iff no error, 1 iff some error of run, 2 iff
+   a usage error (C18_status_spec, C18_main_status_0/1/2); a successful --bdump only adds the file, a failing one executes nothing and writes
+   nothing (C18_bdump_ok_only_writes, C18_bdump_target_fails); --bdump followed by --bload reproduces status, result and execution output
+   (C18_bdump_then_bload; size bounds of the dump codec as hypotheses); -d/-t/-s only observe at tool level
+   (C18_options_only_observe); flag order and clusters lifted to main (C18_main_flag_order, C18_main_cluster). *)
 From BCL Require Import Model.Cli Proofs.CliProofs.
 Open Scope N_scope.
+From BCL Require Import Model.Api Model.DumpLoad Model.CliRun Proofs.CliRunProofs.
 
 Theorem C18_flag_order : forall l1 l2 file,
   Forall simple_flag l1 -> Forall simple_flag l2 -> letters l1 = letters l2 ->
@@ -89,6 +100,122 @@ Theorem C18_fuel_enough : forall args n a rest,
   flags_loop n args a rest = flags_loop (fuel_of args) args a rest.
 Proof. first [exact CliProofs.parse_args_fuel_enough | apply CliProofs.parse_args_fuel_enough]. Qed.
 Print Assumptions C18_fuel_enough.
+
+Theorem C18_run_is_interpret : forall a w src,
+  open_file w (a_file a) = Some src -> a_bload a = false -> a_bdump a = false ->
+  let r := cli_run a w in
+  let '(pr, io) := interpret (input_name (a_file a)) src (a_disasm a) (a_trace a) (a_stats a) in
+  cr_written r = None /\ cr_lfs r = g_lfs (pr_prog pr) /\
+  match io with
+  | IParseErr diags out =>
+    cr_stdout r = out /\ cr_err r = Some (EParse diags) /\ cr_status r = 1 /\ cr_result r = None /\
+    cr_warnings r = []
+  | IRun out rr =>
+    cr_stdout r = out /\ cr_warnings r = rr_warn rr /\
+    match rr_res rr with
+    | VOk => cr_status r = 0 /\ cr_err r = None /\ cr_result r = (if a_result a then Some rr else None)
+    | VErr pos msg => cr_status r = 1 /\ cr_err r = Some (ERuntime pos msg) /\ cr_result r = None
+    | VInternal msg => cr_status r = 1 /\ cr_err r = Some (EInternal msg) /\ cr_result r = None
+    | VPanic _ => cr_status r = 1 /\ cr_err r = Some (EModel (bs "vm panic site")) /\ cr_result r = None
+    end
+  | IModelFail _ => False
+  end.
+Proof. first [exact CliRunProofs.run_is_interpret | apply CliRunProofs.run_is_interpret]. Qed.
+Print Assumptions C18_run_is_interpret.
+
+Theorem C18_status_spec : forall a w, cr_status (cli_run a w) = 0 <-> cr_err (cli_run a w) = None.
+Proof. first [exact CliRunProofs.status_spec | apply CliRunProofs.status_spec]. Qed.
+Print Assumptions C18_status_spec.
+
+Theorem C18_status_1 : forall a w, cr_status (cli_run a w) = 1 <-> exists e, cr_err (cli_run a w) = Some e.
+Proof. first [exact CliRunProofs.status_1_spec | apply CliRunProofs.status_1_spec]. Qed.
+Print Assumptions C18_status_1.
+
+Theorem C18_main_status_2 : forall argv w,
+  main_status (cli_main argv w) = 2 <-> exists e, parse_args argv = inl e.
+Proof. first [exact CliRunProofs.main_status_2 | apply CliRunProofs.main_status_2]. Qed.
+Print Assumptions C18_main_status_2.
+
+Theorem C18_main_status_1 : forall argv w,
+  main_status (cli_main argv w) = 1 <->
+  exists a e, parse_args argv = inr a /\ a_help a = false /\ cr_err (cli_run a w) = Some e.
+Proof. first [exact CliRunProofs.main_status_1 | apply CliRunProofs.main_status_1]. Qed.
+Print Assumptions C18_main_status_1.
+
+Theorem C18_main_status_0 : forall argv w,
+  main_status (cli_main argv w) = 0 <->
+  exists a, parse_args argv = inr a /\ (a_help a = true \/ cr_err (cli_run a w) = None).
+Proof. first [exact CliRunProofs.main_status_0 | apply CliRunProofs.main_status_0]. Qed.
+Print Assumptions C18_main_status_0.
+
+Theorem C18_bdump_ok_only_writes : forall a w g o b,
+  obtain a w = inr (g, o) -> a_bdump a = true -> w_target w (a_bdumpFile a) = TgOk ->
+  dump (parts_of_prog g) = Ok b ->
+  cli_run a w = with_written (cli_run (no_bdump a) w) (Some (a_bdumpFile a, b)) /\
+  cr_written (cli_run (no_bdump a) w) = None.
+Proof. first [exact CliRunProofs.bdump_ok_only_writes | apply CliRunProofs.bdump_ok_only_writes]. Qed.
+Print Assumptions C18_bdump_ok_only_writes.
+
+Theorem C18_bdump_target_fails : forall a w g o,
+  obtain a w = inr (g, o) -> a_bdump a = true -> w_target w (a_bdumpFile a) <> TgOk ->
+  let r := cli_run a w in
+  cr_status r = 1 /\ cr_stdout r = o /\ cr_written r = None /\ cr_result r = None /\ cr_warnings r = [] /\
+  match w_target w (a_bdumpFile a) with
+  | TgCreateFails => cr_err r = Some EDumpCreate
+  | _ => cr_err r = Some EDumpWrite \/
+         (cr_err r = Some (EModel (bs "dump panic site")) /\ exists k, dump (parts_of_prog g) = Panic k)
+  end.
+Proof. first [exact CliRunProofs.bdump_target_fails | apply CliRunProofs.bdump_target_fails]. Qed.
+Print Assumptions C18_bdump_target_fails.
+
+Theorem C18_bdump_then_bload : forall a w src f b a' w',
+  open_file w (a_file a) = Some src -> a_bload a = false ->
+  consts_bounded (input_name (a_file a)) src -> dump_bounded (input_name (a_file a)) src ->
+  cr_written (cli_run a w) = Some (f, b) ->
+  a_bload a' = true -> a_bdump a' = false -> a_file a' = f -> open_file w' f = Some b ->
+  a_trace a' = a_trace a -> a_stats a' = a_stats a -> a_result a' = a_result a ->
+  let pr := parse_whole (input_name (a_file a)) src in
+  let g := pr_prog pr in
+  let rr := execute g (a_trace a) (a_stats a) in
+  let r := cli_run a w in
+  let r' := cli_run a' w' in
+  (a_bdump a = true /\ w_target w (a_bdumpFile a) = TgOk /\ f = a_bdumpFile a /\ pr_ok pr = true /\
+   dump (parts_of_prog g) = Ok b /\ load_bytes b = Ok (parts_of_prog g)) /\
+  cr_stdout r = dis_lines (a_disasm a) g ++ ps_lines (a_stats a) pr ++ rr_out rr /\
+  cr_stdout r' = dis_lines (a_disasm a') g ++ rr_out rr /\
+  cr_status r' = cr_status r /\ cr_err r' = cr_err r /\ cr_result r' = cr_result r /\
+  cr_warnings r' = cr_warnings r /\ cr_lfs r' = cr_lfs r /\ cr_written r' = None.
+Proof. first [exact CliRunProofs.bdump_then_bload | apply CliRunProofs.bdump_then_bload]. Qed.
+Print Assumptions C18_bdump_then_bload.
+
+Theorem C18_options_only_observe : forall a a' w, same_but_opts a a' -> agree (cli_run a w) (cli_run a' w).
+Proof. first [exact CliRunProofs.options_only_observe | apply CliRunProofs.options_only_observe]. Qed.
+Print Assumptions C18_options_only_observe.
+
+Theorem C18_main_flag_order : forall pre1 post1 pre2 post2 file w,
+  Forall simple_flag (pre1 ++ post1) -> Forall simple_flag (pre2 ++ post2) ->
+  same_flags (pre1 ++ post1) (pre2 ++ post2) -> is_file_arg file ->
+  cli_main (pre1 ++ [file] ++ post1) w = cli_main (pre2 ++ [file] ++ post2) w.
+Proof. first [exact CliRunProofs.cli_flag_order | apply CliRunProofs.cli_flag_order]. Qed.
+Print Assumptions C18_main_flag_order.
+
+Theorem C18_main_cluster : forall cs more w,
+  (2 <= length cs)%nat -> forallb is_lower cs = true ->
+  cli_main ((45 :: cs) :: more) w = cli_main (map (fun c => [45; c]) cs ++ more) w.
+Proof. first [exact CliRunProofs.cli_cluster | apply CliRunProofs.cli_cluster]. Qed.
+Print Assumptions C18_main_cluster.
+
+(* the model's own failure constructors are unreachable on the source path, except for the excluded repetition case *)
+Theorem C18_never_model_gives_up : forall a w src what,
+  open_file w (a_file a) = Some src -> a_bload a = false ->
+  consts_bounded (input_name (a_file a)) src ->
+  (a_bdump a = true -> dump_bounded (input_name (a_file a)) src) ->
+  cr_err (cli_run a w) = Some (EModel what) ->
+  what = bs "vm panic site" /\
+  pr_ok (parse_whole (input_name (a_file a)) src) = true /\
+  rr_res (execute (pr_prog (parse_whole (input_name (a_file a)) src)) (a_trace a) (a_stats a)) = VPanic PExcluded.
+Proof. first [exact CliRunProofs.never_model_gives_up | apply CliRunProofs.never_model_gives_up]. Qed.
+Print Assumptions C18_never_model_gives_up.
 
 Example C18_example :
   Cli.parse_args [bs "-dts"; bs "x.bcl"] = Cli.parse_args [bs "x.bcl"; bs "-s"; bs "--trace"; bs "-d"]
